@@ -4,6 +4,7 @@ import (
 	"context"
 	"encoding/binary"
 	"io"
+	"math"
 	"sync"
 
 	"github.com/pkg/errors"
@@ -89,7 +90,12 @@ func (c *protoStream) SendMsg(m interface{}) error {
 	}
 	msg := m.(marshalerSizer)
 	size := msg.Size()
-	b := make([]byte, msg.Size()+4)
+	if uint64(size) > math.MaxUint32 {
+		// the length prefix has 32 bits: a longer body would be announced
+		// modulo 2^32 and desynchronise the reader
+		return errors.Errorf("message of %d bytes does not fit into a frame", size)
+	}
+	b := make([]byte, size+4)
 	binary.BigEndian.PutUint32(b[:4], uint32(size))
 	if _, err := msg.MarshalTo(b[4:]); err != nil {
 		return err
